@@ -109,6 +109,8 @@ func callBuiltin(caller *frame, fn *ssa.Builtin, args []value) value {
 			return x.len()
 		case *channel:
 			return x.length()
+		case *viewslice:
+			return x.n
 		default:
 			panic(fmt.Sprintf("len: illegal operand: %T", x))
 		}
@@ -349,6 +351,7 @@ func conv(in *interpreter, tDst, tSrc types.Type, x value) value {
 type viewptr struct {
 	base []value // elements from the pointed-to position to the end of the backing array
 	t    types.Type
+	hdr  *value // non-nil: a reinterpreted slice header (cell holding the []value)
 }
 
 func fromUnsafe(in *interpreter, u uptr, d *types.Pointer) value {
